@@ -540,6 +540,17 @@ func (v *View) checkC08(res *Result) {
 						}
 					}
 				}
+				// Is the previous term's demotion, at this very moment, held at the log line
+				// that sits between taking the flag down and calling OnDemote (a slow Logger)?
+				// That is the recorded finding "no ordering between a synchronous demotion's
+				// OnDemote and the next term's OnPromote"; anything else is not.
+				ii := v.instIndex(e.Inst)
+				for _, hs := range v.holdSeqs {
+					if hs[0] == ii && idx >= hs[1] && idx <= hs[2] && v.Ev[hs[1]].Op == "log:leader_demoted" {
+						why = "previous-demotion-held-at-its-log-line"
+						break
+					}
+				}
 				res.viol("C08", "alternation", "two-promotions:prev-term-end="+why, fmt.Sprintf("%s: promotion callback invoked twice in a row (P=%d D=%d; previous term ended by %s)", e.Inst, P[e.Inst]+1, D[e.Inst], why), idx)
 			}
 			P[e.Inst]++
